@@ -43,4 +43,6 @@ package frugal
 //@   ensures c04_short: slen($wire) > len(buf) ==> err != nil && n == 0
 //@   ensures c04_fit: slen($wire) <= len(buf) ==> n == slen($wire) && err == $encerr
 //@   ensures c02_inplace: slen($wire) <= len(buf) ==> forall i Int :: {at($wire, i)} 0 <= i && i < n ==> M[buf.ptr + i] == at($wire, i)
+//@   ensures c16_tail: slen($wire) <= len(buf) ==> forall a Int :: {M[a]} buf.ptr + n <= a && a < buf.ptr + cap(buf) ==> M[a] == old(M[a])
+//@   ensures c16_value: forall a Int :: {M[a]} a < old($brk) && (a < buf.ptr || buf.ptr + len(buf) <= a) ==> M[a] == old(M[a])
 //@   ensures c02_wire: $encerr == nil ==> $wire == WS(sdFor(rvOf(val)), old(M), $encp, $win) && slen($win) == 0
